@@ -2,6 +2,7 @@ package h
 
 import (
 	"fmt"
+	"math"
 	"strconv"
 	"strings"
 )
@@ -233,6 +234,21 @@ func init() {
 			for _, q := range pool {
 				rows = append(rows, map[string]any{"p": p, "q": q})
 			}
+		}
+		// one number, two spellings of zero (a JSON document can hold -0): the same key under every strategy
+		for _, ty := range []string{"JOIN", "HASH_JOIN", "LEFT JOIN", "RIGHT JOIN", "PARALLEL HASH_JOIN", "PARALLEL JOIN", "STRAIGHT_JOIN"} {
+			sql := "SELECT x.id AS l, y.id AS r FROM l x " + ty + " r y ON x.k = y.k"
+			sig := []string{"keytext", "negative-zero", "join:" + ty}
+			v := Verdict{OK: true, SQL: sql, Sig: sig, Execs: 1, Nontrivial: true}
+			doc := jsonDecoded(map[string]any{"l": []any{map[string]any{"id": 1.0, "k": math.Copysign(0, -1)}, map[string]any{"id": 2.0, "k": 1.0}},
+				"r": []any{map[string]any{"id": 3.0, "k": 0.0}, map[string]any{"id": 4.0, "k": 1.0}}})
+			out := Run(doc, sql, false)
+			want := []any{map[string]any{"l": 1.0, "r": 3.0}, map[string]any{"l": 2.0, "r": 4.0}}
+			if out.Panic != nil || out.Err != nil || !BagEqual(out.Rows, want) {
+				v = fail("result", sql, sig, "keys -0 / 1 against 0 / 1: want %s got %s", Canon(any(want)), out.Describe())
+			}
+			v.Key, v.Case = "negzero/"+ty, Node{"sql": sql}
+			emit(v)
 		}
 		for _, ty := range []string{"JOIN", "HASH_JOIN", "LEFT JOIN", "PARALLEL HASH_JOIN", "STRAIGHT_JOIN"} {
 			for _, on := range []string{"x.p = y.p AND x.q = y.q", "y.q = x.q AND y.p = x.p"} {
